@@ -355,6 +355,12 @@ def main():
     _w = ['reaction', 'species', 'network', 'grid', 'graphnode', 'system', 'script']
     _rx(run, "vf.history:h_default_isolation", [{"seed": _sd0(), "idx": _i, "which": _w[_i % len(_w)]} for _i in range(1400 if _tr0() == "thorough" else 140)],
         cpu_budget=60, kind_prefix="history: ")
+    # a key left out of a dictionary means the constructor's documented default, in the object's own units (vf/history.py)
+    from vf.sandbox import run_extra as _rxd
+    from vf.common import seed as _sdd, tier as _trd
+    _wd = ['node', 'edge', 'grid', 'species', 'reaction', 'script']
+    _rxd(run, "vf.history:h_dict_defaults", [{"seed": _sdd(), "idx": _i, "which": _wd[_i % len(_wd)]} for _i in range(1200 if _trd() == "thorough" else 120)],
+         cpu_budget=60, kind_prefix="history: ")
     return run.finish()
 
 
